@@ -225,7 +225,7 @@ pub fn property() -> Property {
             SubCheck { name: "slider_subsets", driver: Driver::Custom { run: slider_driver }, check: slider_check, configs: Configs::Both, required: &[], regressions: &[], exhaustive: true },
             SubCheck {
                 name: "slider_random_occupancies",
-                driver: Driver::Generated { gen: gen_slider_case, genome_len: 48, quick: 10_000_000, thorough: 300_000_000 },
+                driver: Driver::Generated { gen: gen_slider_case, genome_len: 48, quick: 30_000_000, thorough: 300_000_000 },
                 check: slider_check,
                 configs: Configs::ReleaseOnly,
                 required: &[],
